@@ -693,29 +693,34 @@ func RunC18(cfg Config) (*ShardResult, error) {
 	for si, src := range sources {
 		sh := canon.HashBytes(mustJSON(src))
 		for _, writer := range api.WriterFormats {
-			if !cfg.Mine(Key64("wsrc", sh, writer)) {
-				continue
-			}
+			// every worker runs the fault-free write of every pair (cheap) and then only its share of the fault
+			// offsets, so that one long output does not make one worker the straggler; the pair's owner does
+			// the fault-free completeness checks
+			owner := cfg.Mine(Key64("wsrc", sh, writer))
 			sr := root.Derive("c18w-"+writer+"-"+src.Name(), si) // per (source, writer): draws must not depend on the sharding
 			cls0, _, w0, cues, tail := evalWriteTail(src, writer, simio.WritePlan{})
 			if cls0 != "ok" {
-				res.Extra["write_pairs_failing_without_fault"]++
+				if owner {
+					res.Extra["write_pairs_failing_without_fault"]++
+				}
 				continue
 			}
-			res.Extra["write_pairs"]++
-			// completeness without fault
-			csc := C18Scenario{Kind: "complete", Source: &src, Writer: writer}
-			res.Evaluations++
-			if seen.add(Key64("complete", sh, writer)) {
-				res.Distinct++
-			}
-			if why := completeSink(writer, w0.Buf, cues, tail); why != "" {
-				if addV(checkC18Write(csc)) {
-					return res, nil
+			if owner {
+				res.Extra["write_pairs"]++
+				// completeness without fault
+				csc := C18Scenario{Kind: "complete", Source: &src, Writer: writer}
+				res.Evaluations++
+				if seen.add(Key64("complete", sh, writer)) {
+					res.Distinct++
+				}
+				if why := completeSink(writer, w0.Buf, cues, tail); why != "" {
+					if addV(checkC18Write(csc)) {
+						return res, nil
+					}
 				}
 			}
 			// the same pair through a sink that offers the optional interfaces: complete as well, and the same bytes
-			if cr, _, wr, cuesR, tailR := evalWriteTail(src, writer, simio.WritePlan{Medium: "rich"}); cr == "ok" {
+			if cr, _, wr, cuesR, tailR := evalWriteTail(src, writer, simio.WritePlan{Medium: "rich"}); owner && cr == "ok" {
 				res.Evaluations++
 				why := completeSink(writer, wr.Buf, cuesR, tailR)
 				if why == "" && !bytes.Equal(stlMaskDates(writer, wr.Buf), stlMaskDates(writer, w0.Buf)) {
@@ -737,14 +742,27 @@ func RunC18(cfg Config) (*ShardResult, error) {
 					ks = append(ks, k)
 				}
 			} else {
+				// call boundaries +-1 (all of them up to 48 calls, the first 8, the last 8 and a seeded sample beyond)
+				var starts []int
 				b := 0
 				for _, c := range w0.Calls {
+					starts = append(starts, b)
+					b += c
+				}
+				if len(starts) > 48 {
+					sel := append([]int(nil), starts[:8]...)
+					sel = append(sel, starts[len(starts)-8:]...)
+					for i := 0; i < 32; i++ {
+						sel = append(sel, starts[sr.Intn(len(starts))])
+					}
+					starts = sel
+				}
+				for _, b := range starts {
 					for _, d := range []int{-1, 0, 1} {
 						if b+d >= 0 && b+d < m {
 							ks = append(ks, b+d)
 						}
 					}
-					b += c
 				}
 				ks = append(ks, m-1)
 				for i := 0; i < lim.wSampled; i++ {
@@ -758,6 +776,9 @@ func RunC18(cfg Config) (*ShardResult, error) {
 				b += c
 			}
 			for ki, k := range ks {
+				if !cfg.Mine(Key64("wk", sh, writer, fmt.Sprint(k))) {
+					continue
+				}
 				var fs []simio.WriteFault
 				if lim.allCombos || bound[k] {
 					for _, kind := range simio.WriteFaultKinds {
